@@ -1,6 +1,7 @@
 CONSTANTS
   MaxOps = 3
   MaxReq = 2
+  TwoStep = FALSE
   Free = TRUE
 SPECIFICATION Spec
 INVARIANT Emit
